@@ -28,16 +28,16 @@ CLAIMS["C15"] = {
     "technique": "Lean 4 theorems (bit lemmas, foldl induction over histories) on a hand-written model + history correspondence against a sorted-set oracle",
 }
 CLAIMS["C01"] = {
-    "text": "The documented semantics are an executable, declarative Lean specification (OH/Spec/Rules.lean). Lean theorems (OH/Props/C01.lean, proofs in OH/Proofs/EvalSpec*.lean): for every parsed expression (ParserWF), every day 1900..9999 and every minute, the model's iterated day schedule has exactly the state the specification defines — selectors (year/step/wrap, month, ISO week, weekday with nth and offsets, holidays = membership in the context calendars), time spans incl. events and the part beyond 24:00, and the rule fold (normal replaces, additional/closed overlay, fallback only when nothing non-closed covers the day, spans continued from yesterday) — C01_schedule_refines_spec_nodated in full for expressions without dated ranges, _inyear/_plain for dated ranges under a decidable class (bounds with a year unrestricted; yearless bounds without offsets, Easter +- 70 days, or shifted bounds that stay in their calendar year), `_partial` with the explicit hypothesis DatedAgree otherwise; c01Holds_iff makes the link with the run-time oracle literal. The same predicate is evaluated on the implementation's schedule_at output for every minute, and the model is tied to the code by correspondence (0 disagreements).",
+    "text": "The documented semantics are an executable, declarative Lean specification (OH/Spec/Rules.lean). Lean theorems (OH/Props/C01.lean, proofs in OH/Proofs/EvalSpec*.lean): for every parsed expression (ParserWF), every day 1900..9999 and every minute, the model's iterated day schedule has exactly the state the specification defines — selectors (year/step/wrap, month, ISO week, weekday with nth and offsets, holidays = membership in the context calendars), time spans incl. events and the part beyond 24:00, and the rule fold (normal replaces, additional/closed overlay, fallback only when nothing non-closed covers the day, spans continued from yesterday) — C01_schedule_refines_spec_nodated in full for expressions without dated ranges, _window/_plain for dated ranges under a decidable class (bounds with a year unrestricted; yearless bounds whose total shift stays within about a year: exprDatedPlain / exprDatedSafe), `_partial` with the explicit hypothesis DatedAgree otherwise; c01Holds_iff makes the link with the run-time oracle literal. The same predicate is evaluated on the implementation's schedule_at output for every minute, and the model is tied to the code by correspondence (0 disagreements).",
     "design_ref": "§5 C01",
-    "note": "Trusted: the hand-written specification (adopts the code's reading where the property text is silent, listed in the file); the model; chrono tie by the chr.* suite; harness/driver. Remaining hypotheses: EvalScope (shifted days representable; being removed by making the spec saturate like the code) and the dated-range class for yearless bounds shifted out of their calendar year (covered by the oracle only). Genuine defects repaired in /repo on the way: D10/D19, D11, D11b, D12, D18, D20 (pairing window). Out of scope by definition: dated ranges from a yearless date to a date with a year (no documented meaning).",
+    "note": "Trusted: the hand-written specification (adopts the code's reading where the property text is silent, listed in the file); the model; chrono tie by the chr.* suite; harness/driver. Remaining hypothesis: the decidable dated-range class (beyond it: open finding dated-shift-over-a-year). Shifted days chrono cannot represent: the specification adopts the code's saturating reading (documented in the spec). Genuine defects repaired in /repo on the way: D10/D19, D11, D11b, D12, D18, D20 (pairing window). Out of scope by definition: dated ranges from a yearless date to a date with a year (no documented meaning).",
     "technique": "Lean 4 refinement proof (model of the evaluator ⊑ declarative specification) + the specification evaluated on the implementation's output + differential correspondence",
 }
-_LB = 'Layer B (EnvOK for the real day level: daily schedules tile the day — available from C14 — and next_change_hint never jumps over a day whose schedule differs) is proved only for the empty expression so far; for other expressions the theorems are `…_partial` under that hypothesis, which the run-time oracle and the correspondence (model = implementation on every generated operation, model mirrors the hint code) stand in for. '
+_LB = 'Layer B is now PROVED (OH/Props/C02B.lean): envOK_of_parserWF — for every parsed expression (ParserWF), every context whose calendars are strictly increasing and representable (CtxWF, what C15 provides) and the decidable scope exprHintSafe (dated ranges whose total shift stays within a year; everything without dated ranges unconditionally: years/steps/wrap, months with/without year, ISO weeks/steps, weekdays/nth/offsets, holidays/offsets, the rule fold incl. fallback/additional/spill/events, is_constant), the real day level meets EnvOK: daily schedules never error and tile the day, next_change_hint never errors, is after the day and never jumps over a day whose schedule differs. Outside the scope the statement is REFUTED on a witness (layerB_unscoped_fails: a bound moved by more than a year — open finding dated-shift-over-a-year). '
 CLAIMS["C02"] = {
     "text": "Layer A is a complete Lean proof (OH/Props/C02A.lean): for ANY day level meeting EnvOK, iter_range terminates without panic and returns THE list of maximal constant runs of the pointwise state over [min from END, min to END) — tiling, kind at every sub-minute instant, adjacent kinds differ, no change skipped, uniqueness — by fun_induction over consume_until_next_kind/next/collect with well-founded termination. " + _LB + "The same clauses are evaluated on the implementation's stream at run time.",
     "design_ref": "§5 C02",
-    "note": "Trusted: Lean kernel + standard axioms; hand-written model OH/Model/{Eval,Iter}.lean tied by correspondence; harness/driver. Former defects D7, D8, D9 (hint/is_constant) repaired in /repo. Open finding D16 (empty interval from a local span inside a DST gap, zone contexts only).",
+    "note": "Trusted: Lean kernel + standard axioms; hand-written model OH/Model/{Eval,Iter}.lean tied by correspondence; harness/driver. Former defects D7, D8, D9, D20 (hints / is_constant / pairing window) repaired in /repo — D20's sharp class was found by the hint-soundness proof attempt. Open: D16 (empty interval from a local span inside a DST gap, zone contexts only); dated-shift-over-a-year (listed under C01).",
     "technique": "Lean 4 theorems (fun_induction, invariants, uniqueness of runs) over an abstract day level + run-time oracle on the implementation's stream + differential correspondence",
 }
 CLAIMS["C03"] = {
